@@ -95,6 +95,12 @@ def generate(tier, seed):
         lines.append(ev + req)
         expect[len(lines) - 1] = (name, n, exp)
         lines.append("NEW")          # drop the context (and the list) before the next case
+    # a backquote template that is itself long (the evaluator walks the template's own spine), with unquotes near both ends
+    for n in [300, 15000] + ([] if tier == "quick" else [40000]):
+        tpl = "`(,x " + "1 " * n + ",x ,@(list x x))"
+        lines += ["NEW", "EVAL (setq x 7)", ("EVAL " if n <= 1000 else "EVALBIG ") + "(let ((r %s)) (list (length r) (car r) (car (last r))))" % tpl]
+        expect[len(lines) - 1] = ("long-template", n, "OK (%d 7 7)" % (n + 4))
+        lines.append("NEW")
     for n in [0, 1, 300, 6000] + ([] if tier == "quick" else [20000]):
         lines += ["NEW", "API bigiter %d 64" % n]          # on a 64 KiB thread stack
         expect[len(lines) - 1] = ("collect-from-iterator", n, "BIG %d %d %s %d" % (n, n * (n - 1) // 2, "nil" if n == 0 else str(n - 1), n))
